@@ -12,7 +12,8 @@
 //!            srI swI frI fwI (the peer is already waiting: completes at once)
 //!   bodies   body table, index = position, each `step,step,…` or `-`:  a<k> await op k | y yield_async |
 //!            s<b> spawn_local(body b) | f<j> await Rust-only event j | w<j> signal event j |
-//!            j<k>.<j> await op k and event j concurrently | c read context slot 0
+//!            j<k>.<j> await op k and event j concurrently | c read context slot 0 |
+//!            g<k> start op k, poll it once and leak it (its waitable stays registered)
 //!   roots    root body of task 0, 1, …
 //!   actions  S mode: s<t> start_task | n<t> callback(NONE) | e<t> poll the set of the last Wait code and
 //!            deliver the answer | x<t> callback(CANCEL) | R<t>.<e0>.<e1>.<e2> raw callback;
@@ -42,7 +43,7 @@ enum Kind { Sub, SRead, SWrite, FRead, FWrite }
 struct OpDecl { kind: Kind, imm: bool, starting: bool }
 
 #[derive(Clone, Copy, Debug)]
-enum Step { Await(usize), Yield, Spawn(usize), Flag(u32), Wake(u32), Join(usize, u32), Ctx }
+enum Step { Await(usize), Yield, Spawn(usize), Flag(u32), Wake(u32), Join(usize, u32), Ctx, Detach(usize) }
 
 #[derive(Clone, Copy, Debug)]
 enum Action { Start(u32), None_(u32), Event(u32), Cancel(u32), Resolve(usize), DropPeer(usize), Progress(usize), Wake(u32), Raw(u32, u32, u32, u32), Cleanup }
@@ -258,6 +259,19 @@ impl Future for Join2 {
     }
 }
 
+/// Polls the operation once and, if it is still pending, leaks it: its waitable stays registered with
+/// the task (completion pointer into the leaked future) although no Rust work waits for it.
+struct Detach { fut: Option<Pin<Box<dyn Future<Output = ()>>>> }
+impl Future for Detach {
+    type Output = ();
+    fn poll(mut self: Pin<&mut Self>, cx: &mut Context<'_>) -> Poll<()> {
+        if let Some(mut f) = self.fut.take() {
+            if f.as_mut().poll(cx).is_pending() { std::mem::forget(f); }
+        }
+        Poll::Ready(())
+    }
+}
+
 // ---------------------------------------------------------------------------------------------
 // Bodies
 // ---------------------------------------------------------------------------------------------
@@ -300,6 +314,7 @@ fn body(b: usize, root: bool) -> BodyFut {
                     Join2 { a, b: Some(FlagFut { j, b: bid }) }.await
                 }
                 Step::Ctx => { host::context_get_0(); }
+                Step::Detach(k) => if op_fresh(k) { Detach { fut: Some(Box::pin(await_op(k))) }.await },
             }
         }
         if let Some(tc) = tc {
@@ -377,6 +392,7 @@ fn parse_step(s: &str) -> Step {
         b'f' => Step::Flag(num(r)),
         b'w' => Step::Wake(num(r)),
         b'c' => Step::Ctx,
+        b'g' => Step::Detach(num(r) as usize),
         b'j' => { let (k, j) = r.split_once('.').unwrap(); Step::Join(num(k) as usize, num(j)) }
         _ => panic!("bad step {s}"),
     }
